@@ -271,142 +271,37 @@ fi
 # ---------------------------------------------------------------------------
 # 6. Dynamic probe: are the entry points functions of their arguments under
 #    seeded call histories on several caller threads, buffer reuse, thread
-#    restarts and panics injected from caller-supplied callbacks?  (probe.rs)
+#    restarts and panics injected from caller-supplied code?  This is the
+#    registered checks' simulator (sim/, driven by checks/check.py) run with the
+#    pseudo-property ALL — the complete result of every call — against a copy
+#    whose path dependency points at $REPO, for both cargo feature sets.
 PROBE_SEED="${VERIF_SEED:-1}"
-PROBE_RUNS="${PROBE_RUNS:-2000}"
-run_probe() {  # $1 = binary, $2 = tag for file names, $3 = label for messages
-  local BIN="$1" TAG="$2" LBL="$3"
-  t0=$(date +%s.%N)
-  "$BIN" probe --seed "$PROBE_SEED" --runs "$PROBE_RUNS" >"$SCRATCH/hot$TAG.out" 2>"$SCRATCH/hot$TAG.err"; hrc=$?
-  export PROBE_HOT_S="$(echo "$(date +%s.%N) - $t0" | bc)"
-  if [ $hrc -eq 3 ]; then
-    # in-batch mismatch: try to reproduce it from the failing run alone in a fresh
-    # process, then drop steps greedily while a mismatch persists
-    run="$(sed -n 's/^HISTORY-DEPENDENT seed=[0-9]* run=\([0-9]*\) .*/\1/p' "$SCRATCH/hot$TAG.out" | head -1)"
-    nsteps="$(grep -c '^    \[' "$SCRATCH/hot$TAG.out")"
-    mkdir -p "$REPLAY_DIR"
-    replay="$REPLAY_DIR/probe${TAG}_seed${PROBE_SEED}_run${run}.replay"
-    keep="$(seq -s, 0 $((nsteps-1)))"
-    if "$BIN" probe --seed "$PROBE_SEED" --runs "$PROBE_RUNS" --only-run "$run" --keep "$keep" >"$SCRATCH/min$TAG.out" 2>/dev/null; [ $? -eq 3 ]; then
-      i=$((nsteps-1))
-      while [ $i -ge 0 ]; do
-        try="$(echo "$keep" | tr ',' '\n' | grep -vx "$i" | paste -sd, -)"
-        if [ -n "$try" ] && "$BIN" probe --seed "$PROBE_SEED" --runs "$PROBE_RUNS" --only-run "$run" --keep "$try" >"$SCRATCH/try$TAG.out" 2>/dev/null; [ $? -eq 3 ]; then
-          keep="$try"; cp "$SCRATCH/try$TAG.out" "$SCRATCH/min$TAG.out"
-        fi
-        i=$((i-1))
-      done
-      { echo "# replay: premise_audit probe --seed $PROBE_SEED --runs $PROBE_RUNS --only-run $run --keep $keep"
-        cat "$SCRATCH/min$TAG.out"; } >"$replay"
-      sed 's/^/  /' "$SCRATCH/min$TAG.out"
-      note_changed "dynamic probe$LBL: a result depends on something other than the call's arguments (minimised to $(echo "$keep" | tr ',' '\n' | wc -l) steps; replay: $replay)"
-    else
-      { echo "# replay: premise_audit probe --seed $PROBE_SEED --runs $((run+1))   (needs the preceding runs' state; not minimised)"
-        cat "$SCRATCH/hot$TAG.out"; } >"$replay"
-      sed 's/^/  /' "$SCRATCH/hot$TAG.out" | head -60
-      note_changed "dynamic probe$LBL: a result depends on the history of earlier runs in the same process (replay: $replay)"
-    fi
-  elif [ $hrc -ne 0 ]; then
-    tail -5 "$SCRATCH/hot$TAG.out" "$SCRATCH/hot$TAG.err"
-    die "dynamic probe$LBL exited $hrc"
-  else
-    "$BIN" probe --seed "$PROBE_SEED" --runs "$PROBE_RUNS" --cold >"$SCRATCH/cold$TAG.out" 2>"$SCRATCH/cold$TAG.err" || { tail -5 "$SCRATCH/cold$TAG.err"; die "dynamic probe$LBL (cold pass) failed"; }
-    echo "  $(head -1 "$SCRATCH/hot$TAG.out")"
-    echo "  $(head -1 "$SCRATCH/cold$TAG.out")"
-    sed -n '/@@DIGEST@@/,$p' "$SCRATCH/hot$TAG.out"  >"$SCRATCH/hot$TAG.dig"
-    sed -n '/@@DIGEST@@/,$p' "$SCRATCH/cold$TAG.out" >"$SCRATCH/cold$TAG.dig"
-    [ "$(wc -l <"$SCRATCH/hot$TAG.dig")" -gt 100 ] || die "dynamic probe$LBL produced no digest"
-    # determinism of the probe itself: the same seed in another process must give the same bytes
-    "$BIN" probe --seed "$PROBE_SEED" --runs "$PROBE_RUNS" >"$SCRATCH/hot2$TAG.out" 2>/dev/null
-    "$BIN" probe --seed "$PROBE_SEED" --runs "$PROBE_RUNS" --cold >"$SCRATCH/cold2$TAG.out" 2>/dev/null
-    if cmp -s "$SCRATCH/hot$TAG.out" "$SCRATCH/hot2$TAG.out" && cmp -s "$SCRATCH/cold$TAG.out" "$SCRATCH/cold2$TAG.out"; then
-      note_ok "dynamic probe$LBL: both passes are byte-identical when repeated in a new process (one seed = one execution)"
-    else
-      note_changed "dynamic probe$LBL: the same seed gave different results in two processes — the tree now contains a nondeterminism source of its own (randomised hashing, addresses, time, ...); replays below may not reproduce"
-    fi
-    if cmp -s "$SCRATCH/hot$TAG.dig" "$SCRATCH/cold$TAG.dig"; then
-      note_ok "dynamic probe$LBL: every call result is a function of its arguments across threads, buffer reuse, restarts and callback panics, and equals the fresh-process reference pass"
-    else
-      ndis="$(diff "$SCRATCH/hot$TAG.dig" "$SCRATCH/cold$TAG.dig" | grep -c '^<')"
-      kh="$(diff "$SCRATCH/hot$TAG.dig" "$SCRATCH/cold$TAG.dig" | sed -n 's/^[<>] \([0-9a-f]\{16\}\) .*/\1/p' | head -1)"
-      P="$BIN probe --seed $PROBE_SEED --runs $PROBE_RUNS"
-      hash_of() { sed -n "s/^$kh \\([0-9a-f]\\{16\\}\\)\$/\\1/p" "$1" | head -1; }
-      hot_rh="$(hash_of "$SCRATCH/hot$TAG.dig")"; cold_rh="$(hash_of "$SCRATCH/cold$TAG.dig")"
-      # ground truth for that key: the lone call in a fresh process
-      $P --cold --cold-window "$kh:0" --dump-key "$kh" >"$SCRATCH/lone$TAG.out" 2>/dev/null
-      lone_rh="$(sed -n '/@@DIGEST@@/,/@@DUMP@@/p' "$SCRATCH/lone$TAG.out" | hash_of /dev/stdin)"
-      mkdir -p "$REPLAY_DIR"
-      replay="$REPLAY_DIR/probe${TAG}_seed${PROBE_SEED}_key${kh}.replay"
-      minimised="not minimised; "
-      {
-        if [ -n "$lone_rh" ] && [ "$hot_rh" != "$lone_rh" ]; then
-          # the multi-thread history deviates from the lone call: replay its run alone, drop steps greedily
-          $P --dump-key "$kh" | sed -n '/@@DUMP@@/,$p' >"$SCRATCH/hot$TAG.dump"
-          run="$(sed -n 's/^first-at run \([0-9]*\) step \([0-9]*\) .*/\1/p' "$SCRATCH/hot$TAG.dump" | head -1)"
-          step="$(sed -n 's/^first-at run \([0-9]*\) step \([0-9]*\) .*/\2/p' "$SCRATCH/hot$TAG.dump" | head -1)"
-          keep="$(seq -s, 0 "$step")"
-          if $P --only-run "$run" --keep "$keep" --expect "$kh:$lone_rh" >"$SCRATCH/min$TAG.out" 2>/dev/null; [ $? -eq 3 ]; then
-            i=$((step-1))   # the last kept step is the call under test: never dropped
-            while [ $i -ge 0 ]; do
-              try="$(echo "$keep" | tr ',' '\n' | grep -vx "$i" | paste -sd, -)"
-              if $P --only-run "$run" --keep "$try" --expect "$kh:$lone_rh" >"$SCRATCH/try$TAG.out" 2>/dev/null; [ $? -eq 3 ]; then
-                keep="$try"; cp "$SCRATCH/try$TAG.out" "$SCRATCH/min$TAG.out"
-              fi
-              i=$((i-1))
-            done
-            minimised="minimised to $(echo "$keep" | tr ',' '\n' | wc -l) steps; "
-            echo "# replay: premise_audit probe --seed $PROBE_SEED --runs $PROBE_RUNS --only-run $run --keep $keep --expect $kh:$lone_rh"
-            cat "$SCRATCH/min$TAG.out"
-          else
-            echo "# replay: premise_audit probe --seed $PROBE_SEED --runs $PROBE_RUNS --dump-key $kh   (needs the preceding runs' state)"
-            cat "$SCRATCH/hot$TAG.dump"
-          fi
-        else
-          # the reference pass deviates from the lone call: shrink the window of preceding calls
-          n=1; found=""
-          while [ $n -le 65536 ]; do
-            $P --cold --cold-window "$kh:$n" >"$SCRATCH/win$TAG.out" 2>/dev/null
-            w_rh="$(sed -n '/@@DIGEST@@/,$p' "$SCRATCH/win$TAG.out" | hash_of /dev/stdin)"
-            if [ -n "$w_rh" ] && [ "$w_rh" != "$lone_rh" ]; then found=$n; break; fi
-            n=$((n*2))
-          done
-          if [ -n "$found" ]; then
-            lo=$((found/2)); hi=$found     # smallest window in (lo, hi] that still deviates
-            while [ $((hi-lo)) -gt 1 ]; do
-              mid=$(((lo+hi)/2))
-              $P --cold --cold-window "$kh:$mid" >"$SCRATCH/win$TAG.out" 2>/dev/null
-              w_rh="$(sed -n '/@@DIGEST@@/,$p' "$SCRATCH/win$TAG.out" | hash_of /dev/stdin)"
-              if [ -n "$w_rh" ] && [ "$w_rh" != "$lone_rh" ]; then hi=$mid; else lo=$mid; fi
-            done
-            minimised="minimised to $((hi+1)) consecutive single-thread calls; "
-            echo "# replay: premise_audit probe --seed $PROBE_SEED --runs $PROBE_RUNS --cold --cold-window $kh:$hi --dump-key $kh   vs   --cold-window $kh:0"
-            echo "## the $hi preceding call(s) of the reference order, then the key, in execution order:"
-            $P --cold --cold-window "$kh:$hi" --dump-all | sed -n '/@@DUMP@@/,$p'
-          else
-            echo "# replay: premise_audit probe --seed $PROBE_SEED --runs $PROBE_RUNS --cold --dump-key $kh   vs   --cold-window $kh:0"
-            $P --cold --dump-key "$kh" | sed -n '/@@DUMP@@/,$p'
-          fi
-        fi
-        echo "## the lone call in a fresh process:"
-        sed -n '/@@DUMP@@/,$p' "$SCRATCH/lone$TAG.out"
-      } >"$replay" 2>/dev/null
-      sed 's/^/  /' "$replay" | cut -c1-400
-      note_changed "dynamic probe$LBL: the multi-thread history and the fresh-process reference pass disagree on $ndis key(s) (${minimised}replay: $replay)"
-    fi
-  fi
+export PROBE_RUNS="${PROBE_RUNS:-2000}"
+VERIF_DIR="$(dirname "$HERE")"
+sim_copy() {
+  rm -rf "$SCRATCH/sim"; cp -r "$VERIF_DIR/sim" "$SCRATCH/sim" || die "copy simulator"
+  sed -i "s#path = \"/repo\"#path = \"$REPO\"#" "$SCRATCH/sim/Cargo.toml"
 }
-if [ $PROBE -eq 1 ] && [ -x "$SCRATCH/target/release/premise_audit" ]; then
-  run_probe "$SCRATCH/target/release/premise_audit" "" ""
-  # the same probe against the library built with --no-default-features
-  # (no smawk / unicode-linebreak / unicode-width: the properties quantify over both sets)
-  if ( cd "$SCRATCH/crate" && CARGO_TARGET_DIR="$SCRATCH/target_nd" cargo build --release --offline --no-default-features ) >"$SCRATCH/build_nd.log" 2>&1; then
-    run_probe "$SCRATCH/target_nd/release/premise_audit" "_nodefault" " [no default features]"
+relay() {  # print the driver's report without its VIOLATION line (the audit never prints one)
+  grep -v '^VIOLATION ' "$1" | sed 's/^/  /' | cut -c1-400 | head -60
+}
+if [ $PROBE -eq 1 ]; then
+  sim_copy
+  VERIF_SEED="$PROBE_SEED" TW_SIM_SRC="$SCRATCH/sim" TW_OUT="$SCRATCH/simout" python3 "$VERIF_DIR/checks/check.py" ALL quick >"$SCRATCH/probe.log" 2>&1; prc=$?
+  if [ $prc -eq 0 ]; then
+    echo "  $(tail -1 "$SCRATCH/probe.log" | cut -c1-400)"
+    note_ok "dynamic probe: every call result is a function of its arguments across threads, buffer reuse, restarts and caught panics in caller code; equals the fresh-process reference pass; byte-identical when repeated (both feature sets)"
+  elif [ $prc -eq 1 ]; then
+    rp="$(sed -n 's/^VIOLATION property=ALL replay=//p' "$SCRATCH/probe.log" | head -1)"
+    mkdir -p "$REPLAY_DIR"; [ -f "$rp" ] && cp "$rp" "$REPLAY_DIR/" && rp="$REPLAY_DIR/$(basename "$rp")"
+    relay "$SCRATCH/probe.log"
+    note_changed "dynamic probe: $(sed -n 's/^ALL: //p' "$SCRATCH/probe.log" | head -1) (replay: $rp; re-run with TW_SIM_SRC=<copy of sim/ pointed at the tree> TW_OUT=<dir> checks/check.py --replay <file>)"
   else
-    tail -20 "$SCRATCH/build_nd.log"
-    [ $changed -eq 1 ] || die "scratch crate did not build with --no-default-features"
-    echo "  (scratch crate did not build with --no-default-features; second probe skipped)"
+    tail -20 "$SCRATCH/probe.log"
+    [ $changed -eq 1 ] || die "dynamic probe could not run (exit $prc)"
+    echo "  (dynamic probe could not run on this tree; skipped)"
   fi
-elif [ $PROBE -eq 0 ]; then
+else
   echo "  (dynamic probe skipped: --no-probe)"
 fi
 
@@ -414,30 +309,22 @@ fi
 # 7. (--miri) Interleavings INSIDE calls: a few caller threads free-run
 #    overlapping calls on shared buffers under Miri, whose scheduler preempts at
 #    any instruction and is a function of -Zmiri-seed. Also reports data races/UB.
+miri_ok=0
 if [ $MIRI -eq 1 ]; then
   cargo +nightly miri --version >/dev/null 2>&1 || die "--miri: cargo +nightly miri is not available"
-  W="${MIRI_WORKLOADS:-6}"; K="${MIRI_SCHEDULES:-16}"; s0="${VERIF_SEED:-1}"
-  miri_bad=0; miri_ok=0
-  for ws in $(seq "$s0" $((s0+W-1))); do
-    ( cd "$SCRATCH/crate" && MIRIFLAGS="-Zmiri-many-seeds=0..$K -Zmiri-preemption-rate=0.05" CARGO_TARGET_DIR="$SCRATCH/miri_target" \
-        cargo +nightly miri run --offline -- probe --parallel --seed "$ws" ) >"$SCRATCH/miri.$ws.log" 2>&1
-    mrc=$?
-    miri_ok=$((miri_ok + $(grep -c '^parallel pass' "$SCRATCH/miri.$ws.log")))
-    if [ $mrc -ne 0 ]; then
-      if grep -q 'SCHEDULE-DEPENDENT\|Undefined Behavior\|Data race' "$SCRATCH/miri.$ws.log"; then
-        fs="$(sed -n 's/^FAILING SEED: \([0-9]*\)/\1/p' "$SCRATCH/miri.$ws.log" | head -1)"
-        mkdir -p "$REPLAY_DIR"; replay="$REPLAY_DIR/miri_workload${ws}_schedule${fs:-unknown}.replay"
-        { echo "# replay: MIRIFLAGS=\"-Zmiri-seed=${fs:-?} -Zmiri-preemption-rate=0.05\" cargo +nightly miri run --offline -- probe --parallel --seed $ws   (in a copy of tools/premise_audit pointed at the tree)"
-          grep -A4 'SCHEDULE-DEPENDENT\|Undefined Behavior\|Data race' "$SCRATCH/miri.$ws.log" | head -40; } >"$replay"
-        sed 's/^/  /' "$replay" | cut -c1-300
-        note_changed "miri pass: a result depends on how caller threads interleave inside calls, or the interpreter reported a race/UB (workload seed $ws, scheduler seed ${fs:-?}; replay: $replay)"
-        miri_bad=1; break
-      else
-        tail -15 "$SCRATCH/miri.$ws.log"; die "--miri: interpreter run failed for workload seed $ws"
-      fi
-    fi
-  done
-  [ $miri_bad -eq 0 ] && note_ok "miri pass: $miri_ok executions ($W workloads x $K scheduler seeds, preemption inside calls): every concurrent result equals the single-thread result; no data race or UB reported"
+  sim_copy
+  VERIF_SEED="${VERIF_SEED:-1}" TW_SIM_SRC="$SCRATCH/sim" TW_OUT="$SCRATCH/simout" python3 "$VERIF_DIR/checks/check.py" ALL miri >"$SCRATCH/miri.log" 2>&1; mrc=$?
+  if [ $mrc -eq 0 ]; then
+    miri_ok="$(sed -n 's/.*miri executions \([0-9]*\).*/\1/p' "$SCRATCH/miri.log" | tail -1)"
+    note_ok "miri pass: ${miri_ok:-?} executions (${MIRI_WORKLOADS:-6} workloads x ${MIRI_SCHEDULES:-16} scheduler seeds, preemption inside calls): every concurrent result equals the single-thread result; no data race or UB reported"
+  elif [ $mrc -eq 1 ]; then
+    rp="$(sed -n 's/^VIOLATION property=ALL replay=//p' "$SCRATCH/miri.log" | head -1)"
+    mkdir -p "$REPLAY_DIR"; [ -f "$rp" ] && cp "$rp" "$REPLAY_DIR/" && rp="$REPLAY_DIR/$(basename "$rp")"
+    relay "$SCRATCH/miri.log"
+    note_changed "miri pass: $(sed -n 's/^ALL: //p' "$SCRATCH/miri.log" | head -1) (replay: $rp)"
+  else
+    tail -20 "$SCRATCH/miri.log"; die "--miri: interpreter run failed"
+  fi
 fi
 
 # ---------------------------------------------------------------------------
@@ -450,9 +337,11 @@ out, repo, changed, seed, runs, scratch, secs, miri, miri_ok = sys.argv[1:10]
 def first(path):
     try: return open(path).readline().strip()
     except OSError: return ""
-hot = first(os.path.join(scratch, "hot.out"))
-hot_nd = first(os.path.join(scratch, "hot_nodefault.out"))
-stats = {k: int(v) for k, v in re.findall(r'(\w+) (\d+)', hot) if k not in ("seed",)}
+try:
+    ev = json.load(open(os.path.join(scratch, "simout", "evidence", "ALL.json")))["coverage"]
+except (OSError, ValueError, KeyError):
+    ev = {}
+stats = dict(ev.get("events_injected", {}), **{k: ev.get(k) for k in ("evaluations", "distinct_nontrivial", "simulated_runs", "feature_sets", "runs_per_hour_one_core")})
 census = ""
 try:
     for l in open(os.path.join(scratch, "census.res")):
@@ -466,27 +355,15 @@ rep = {
   "verdict": "PREMISE-CHANGED" if changed != "0" else "PREMISES-HOLD",
   "wall_s": int(secs),
   "syscall_census": census,
-  "dynamic_probe": {
-    "seed": int(seed), "runs": int(runs),
-    "real_code": "every call goes into the textwrap library built from the tree above (release profile); nothing is stubbed",
-    "harness_only": "caller threads, their reusable buffers, the one-call-at-a-time scheduler, the callbacks and the user Fragment that raise the injected panics",
-    "scheduler": "one PRNG (splitmix64) seeded from VERIF_SEED draws texts, calls, which thread makes each call, where its buffer lives, restarts and fault positions; threads are real and are released one call at a time",
-    "counts": stats,
-    "events_injected": {
-      "caller_buffer_reused_with_new_contents": stats.get("buffer_reuses_new_contents"),
-      "same_shared_buffer_used_from_threads": stats.get("shared_buffer_calls"),
-      "thread_exit_and_respawn": stats.get("worker_restarts"),
-      "callback_or_fragment_panic_armed": stats.get("faults_armed"),
-      "callback_or_fragment_panic_fired_and_caught": stats.get("faults_fired"),
-      "calls_made_on_a_thread_after_it_caught_a_panic": stats.get("calls_after_fault_same_thread"),
-    },
-    "interleavings": {"distinct_call_orders": stats.get("distinct_call_orders"),
-                      "library_internal_scheduling_points": 0,
-                      "note": "the library contains no synchronisation, I/O or timer call, so whole calls are the only unit a scheduler can order"},
-    "runs_per_hour_at_this_rate": int(int(runs) * 3600 / max(0.05, float(os.environ.get("PROBE_HOT_S", "0.3")))),
-  },
-  "dynamic_probe_no_default_features": ({k: int(v) for k, v in re.findall(r'(\w+) (\d+)', hot_nd) if k != "seed"} or "not run"),
-  "miri_pass": ({"executions": int(miri_ok)} if miri == "1" else "not run (pass --miri)"),
+  "dynamic_probe": ({
+    "engine": "sim/ driven by checks/check.py with the pseudo-property ALL (the complete result of every call), both cargo feature sets",
+    "seed": int(seed), "runs_per_feature_set": int(runs),
+    "calls_compared": ev.get("evaluations"), "keys_compared_across_contexts": ev.get("distinct_nontrivial"),
+    "events_injected": ev.get("events_injected"), "interleavings": ev.get("interleavings"),
+    "reference_pass": ev.get("reference_pass"), "runs_per_hour_one_core": ev.get("runs_per_hour_one_core"),
+    "real_code": ev.get("real_code"), "stubs": ev.get("stubs"), "samples": ev.get("samples"),
+  } if ev else "not run or ended in a finding (see the audit output)"),
+  "miri_pass": ({"executions": int(miri_ok or 0)} if miri == "1" else "not run (pass --miri)"),
 }
 os.makedirs(os.path.dirname(out) or ".", exist_ok=True)
 json.dump(rep, open(out, "w"), indent=1)
